@@ -13,4 +13,4 @@ Separate Extraction
   Cst.Builder.parse_with Cst.Builder.build Cst.Builder.lex_err_span
   Cst.Rewrite.rewrite Cst.Rewrite.token_rewrite Cst.Rewrite.token_rewrite_old
   Cst.Rewrite.leave_all Cst.Rewrite.keep_all Cst.Rewrite.no_hook Cst.Rewrite.nat_hook
-  Cst.Rewrite.replace_nth_t Cst.Rewrite.replace_nth_e Cst.Rewrite.clone_with_text.
+  Cst.Rewrite.replace_nth_t Cst.Rewrite.replace_nth_e Cst.Rewrite.clone_with_text Cst.Rewrite.clone_with_leading_trivia.
